@@ -1,0 +1,9 @@
+//go:build verif
+
+package forwarding
+
+// VerifEnsureValid exposes CreationSpecification.ensureValid to the
+// verification harness.
+func (s *CreationSpecification) VerifEnsureValid() error {
+	return s.ensureValid()
+}
